@@ -148,6 +148,14 @@ Definition process_app (c : cfg) (code : Z) (h : hinfo) (acc : list saved) (bs :
     | Some (None, h', r) => Some (h', acc, r)
     end.
 
+(* the two bytes FF, code at the head of the input (next_marker without fill bytes / garbage
+   skipping: only well-formed marker sequences are in the model) *)
+Definition next_marker (bs : list Z) : option (Z * list Z) :=
+  match bs with
+  | ff :: code :: r => if ff =? 255 then Some (code, r) else None
+  | _ => None
+  end.
+
 (* the run of COM/APPn markers at the head of the input; stops (returning the input
    unchanged from there) at the first other marker.  fuel counts markers. *)
 Fixpoint read_app_markers (fuel : nat) (c : cfg) (h : hinfo) (acc : list saved) (bs : list Z)
@@ -155,15 +163,15 @@ Fixpoint read_app_markers (fuel : nat) (c : cfg) (h : hinfo) (acc : list saved) 
   match fuel with
   | O => None
   | S f =>
-      match bs with
-      | 255 :: code :: r =>
+      match next_marker bs with
+      | Some (code, r) =>
           if is_app_or_com code then
             match process_app c code h acc r with
             | None => None
             | Some (h', acc', r') => read_app_markers f c h' acc' r'
             end
           else Some (h, acc, bs)
-      | _ => Some (h, acc, bs)
+      | None => Some (h, acc, bs)
       end
   end.
 
@@ -391,8 +399,8 @@ Fixpoint read_header_loop (fuel : nat) (c : cfg) (hd : header) (bs : list Z)
   match fuel with
   | O => None
   | S f =>
-      match bs with
-      | 255 :: code :: r =>
+      match next_marker bs with
+      | Some (code, r) =>
           if is_app_or_com code then
             match process_app c code (hd_info hd) (hd_saved hd) r with
             | None => None
@@ -438,15 +446,15 @@ Fixpoint read_header_loop (fuel : nat) (c : cfg) (hd : header) (bs : list Z)
                   end
                 else None
             end
-      | _ => None
+      | None => None
       end
   end.
 
 Definition read_header (c : cfg) (bs : list Z) : option (header * list Z) :=
-  match bs with
-  | 255 :: soi :: r =>
+  match next_marker bs with
+  | Some (soi, r) =>
       if soi =? M_SOI then
         read_header_loop (S (length r)) c (mkHeader hinfo_init [] 0 None None) r
       else None
-  | _ => None
+  | None => None
   end.
